@@ -11,6 +11,7 @@
 #include <smooth/se_k_3.hpp>
 #include <smooth/so2.hpp>
 #include <smooth/so3.hpp>
+#include <smooth/derivatives.hpp>
 
 #define VSC(G) typename G::Scalar
 #define VTAN(G) Eigen::Matrix<typename G::Scalar, G::Dof, 1>
@@ -76,7 +77,12 @@
   { G A; A.coeffs() = Eigen::Map<const Eigen::Matrix<VSC(G), G::RepSize, 1>>(a);                            \
     G O = A.inverse(); Eigen::Map<Eigen::Matrix<VSC(G), G::RepSize, 1>> OO(o); OO = O.coeffs(); }                  \
   extern "C" void P##_cast_same(const VSC(G) * a, VSC(G) * o)                                               \
-  { smooth::Map<const G> A(a); smooth::Map<G> O(o); O = A.template cast<VSC(G)>(); }
+  { smooth::Map<const G> A(a); smooth::Map<G> O(o); O = A.template cast<VSC(G)>(); }                        \
+  extern "C" void P##_dr_rminus(const VSC(G) * t, VSC(G) * m)                                               \
+  { VTAN(G) T = Eigen::Map<const VTAN(G)>(t); Eigen::Map<VTMAP(G)> M(m); M = smooth::dr_rminus<G>(T); }     \
+  extern "C" void P##_dr_rminus_sq(const VSC(G) * t, VSC(G) * m)                                            \
+  { VTAN(G) T = Eigen::Map<const VTAN(G)>(t); Eigen::Map<Eigen::Matrix<VSC(G), 1, G::Dof>> M(m);            \
+    M = smooth::dr_rminus_squarednorm<G>(T); }
 
 #define HESS_SHIMS(P, G)                                                                                    \
   extern "C" void P##_d2r_exp(const VSC(G) * t, VSC(G) * m)                                                 \
@@ -86,7 +92,12 @@
   extern "C" void P##_d2l_exp(const VSC(G) * t, VSC(G) * m)                                                 \
   { Eigen::Map<const VTAN(G)> T(t); Eigen::Map<VHESS(G)> M(m); M = G::d2l_exp(T); }                         \
   extern "C" void P##_d2l_expinv(const VSC(G) * t, VSC(G) * m)                                              \
-  { Eigen::Map<const VTAN(G)> T(t); Eigen::Map<VHESS(G)> M(m); M = G::d2l_expinv(T); }
+  { Eigen::Map<const VTAN(G)> T(t); Eigen::Map<VHESS(G)> M(m); M = G::d2l_expinv(T); }                      \
+  extern "C" void P##_d2r_rminus(const VSC(G) * t, VSC(G) * m)                                              \
+  { VTAN(G) T = Eigen::Map<const VTAN(G)>(t); Eigen::Map<VHESS(G)> M(m); M = smooth::d2r_rminus<G>(T); }    \
+  extern "C" void P##_d2r_rminus_sq(const VSC(G) * t, VSC(G) * m)                                           \
+  { VTAN(G) T = Eigen::Map<const VTAN(G)>(t); Eigen::Map<VTMAP(G)> M(m);                                    \
+    M = smooth::d2r_rminus_squarednorm<G>(T); }
 
 // group action g * v : point dimension AD in, AD out; dr_action is AD x Dof
 #define ACTION_SHIMS(P, G, AD)                                                                              \
